@@ -321,6 +321,19 @@ func checkC09(an *Analysis, add func(Violation)) {
 					a.at, turn-c.Begin.T, c.End.T-c.Sends[0].T, c.Rec.Obs.Err))
 			}
 		}
+		// "with an error if no acceptable reply arrived": a call that reports success was handed a 64-byte message
+		// carrying the addressed controller's serial number (whether its content is acceptable is C03's business)
+		if c.St.Op != model.GetDevices && c.St.Op.HasReply() && c.Rec != nil && !c.Rec.Obs.Failed() && c.Rec.Obs.Panic == "" {
+			got := false
+			for _, d := range c.Reads {
+				if d.N == 64 && len(d.Data) == 64 && model.Serial(d.Data) == c.St.Args.Serial {
+					got = true
+				}
+			}
+			if !got {
+				v("success-without-reply", fmt.Sprintf("the call reported success although no reply from the addressed controller arrived (%d messages delivered, %d receive errors)", len(c.Reads), len(c.ReadFails)))
+			}
+		}
 		// every socket the call opened is closed when it returns
 		closed := map[int]bool{}
 		for _, e := range c.Closes {
@@ -351,6 +364,19 @@ func checkC09(an *Analysis, add func(Violation)) {
 			if cp["goroutines"] > 0 {
 				v("goroutine-leak", fmt.Sprintf("%d goroutine(s) more than before the first call once the process was quiescent after the call", cp["goroutines"]))
 			}
+		}
+	}
+	// a listener that could not start, or was stopped, leaves nothing behind either
+	for _, e := range an.Notes["checkpoint-listen"] {
+		var cp map[string]int
+		json.Unmarshal(e.Data, &cp)
+		if cp["sockets"] != 0 {
+			add(Violation{Code: "socket-leak", Sig: "C09:socket-leak:listen", Task: e.Task, Step: e.Step,
+				Detail: fmt.Sprintf("%d socket(s) open once the process was quiescent after Listen had returned", cp["sockets"])})
+		}
+		if cp["goroutines"] > 0 {
+			add(Violation{Code: "goroutine-leak", Sig: "C09:goroutine-leak:listen", Task: e.Task, Step: e.Step,
+				Detail: fmt.Sprintf("%d goroutine(s) of the library still alive once the process was quiescent after Listen had returned", cp["goroutines"])})
 		}
 	}
 	leaks(an, "C09", add)
@@ -753,6 +779,13 @@ func foreignHolds(sc *engine.Scenario, listen string) bool {
 // ---- C17 ------------------------------------------------------------------------------------
 
 func checkC17(an *Analysis, add func(Violation)) {
+	// statuses handed to the event callback are results too: each carries the content of its own datagram, whatever
+	// the listener's receive buffer holds by the time the callback looks at it
+	listenerCheck(an, "C17", nil, func(v Violation) {
+		if strings.HasPrefix(v.Code, "event:") || v.Code == "status-changed" {
+			add(v)
+		}
+	})
 	for _, name := range []string{"arg-mutated", "result-changed", "clone-aliased", "config-changed", "status-changed"} {
 		for _, e := range an.Notes[name] {
 			add(Violation{Code: name, Sig: "C17:" + name + ":" + opAt(an, e), Task: e.Task, Step: e.Step, Detail: name + ": " + trunc(string(e.Data), 1500)})
@@ -821,6 +854,15 @@ func bcdv(b byte) int { return int(b>>4)*10 + int(b&0x0f) }
 // relaxZone drops the expectation for date-times whose civil time does not exist in the process zone.
 func relaxZone(loc *time.Location, op model.Op, e *model.Expect, d []byte) {
 	for _, f := range model.ReplyFields(op) {
+		if f.Kind == model.KDate {
+			// a calendar day the zone skipped entirely is exempt
+			b := d[f.Off : f.Off+4]
+			if y, mo, dd := bcdv(b[0])*100+bcdv(b[1]), bcdv(b[2]), bcdv(b[3]); model.ValidDate(y, mo, dd) && zones.NoInstant(loc, y, mo, dd) {
+				if _, ok := e.F[f.Name]; ok {
+					e.F[f.Name] = nil
+				}
+			}
+		}
 		if f.Kind != model.KDateTime {
 			continue
 		}
